@@ -74,6 +74,7 @@ CONF_COMMON = "".join("%s %d seconds\n" % kv for kv in sorted(TIMEOUTS.items()))
 CFGS = {
     "mem": "",                               # memory cache on
     "off": "cache deny all\n",               # caching off
+    "ufs": None,                             # memory + disk cache (see Inst)
 }
 LINGER0 = struct.pack("ii", 1, 0)
 BAD_LOG = ("assertion failed", "FATAL", "BUG")
@@ -113,7 +114,7 @@ def gen_client(rng):
 
 def gen_history(rng, k):
     seq = (k % 4 == 3)
-    cfg = "off" if k % 3 == 2 else "mem"
+    cfg = ["mem", "ufs", "off"][k % 3]
     if seq:
         ng = rng.randrange(2, 5)
         groups = []
@@ -280,7 +281,17 @@ def _count_idle(sq):
 class Inst:
     def __init__(self, L, cfg, k):
         self.org = L.origin()
-        self.sq = L.squid(extra_conf=CONF_COMMON + CFGS[cfg], name="vc08%s%dp%d" % (cfg, k, os.getpid()))
+        name = "vc08%s%dp%d" % (cfg, k, os.getpid())
+        if cfg == "ufs":
+            # a disk cache: swap-out files are FD_FILE descriptors opened and closed per stored object
+            sq = lab.Squid(L, CONF_COMMON + "cache_dir ufs %s 20 2 2\n" % os.path.join(L.dir, name, "cache"), 0, None, name,
+                           "8 MB", "", "http_access allow all")
+            L.procs.append(sq)
+            sq.run_z()
+            sq.start(20)
+            self.sq = sq
+        else:
+            self.sq = L.squid(extra_conf=CONF_COMMON + CFGS[cfg], name=name)
         self.cfg = cfg
         self.lock = threading.Lock()
         self.pid = self.sq.proc.pid
@@ -495,7 +506,7 @@ def _setup(L):
     if "inst" in _state and all(i.sq.alive() for i in _state["inst"]):
         return
     insts = []
-    jobs = [("mem", 0), ("mem", 1), ("off", 2), ("off", 3), ("off", 4), ("mem", 5)][:NINST]
+    jobs = [("mem", 0), ("ufs", 1), ("off", 2), ("off", 3), ("ufs", 4), ("mem", 5)][:NINST]
     with concurrent.futures.ThreadPoolExecutor(max_workers=len(jobs)) as ex:
         insts = list(ex.map(lambda a: Inst(L, a[0], a[1]), jobs))
     _state["inst"] = insts
